@@ -1,9 +1,10 @@
-//@ assume: Chain is reduced to an abstract head accessor (head_header) with an uninterpreted current head height; Transaction::lock_height is the maximum kernel lock height (Kani unit C13/lock_heights, bounded, on the real code)
+//@ assume: Chain is reduced to abstract tip accessors: head_header / head (the BODY head, the chain transactions will be mined on) and header_head (the header chain's head, which can be ahead or on another fork) with uninterpreted heights; Transaction::lock_height is the maximum kernel lock height (Kani unit C13/lock_heights, bounded, on the real code)
 //@ assume: decided here: the pool-side lock-height rule -- Chain::verify_tx_lock_height admits a transaction iff its lock height is at most the height of the NEXT block (head height + 1), so a height-locked kernel stays out of the pool until the next block reaches its lock height
-//@ assumed_items: 4
+//@ assumed_items: 6
 //@ fns: Chain::verify_tx_lock_height, Chain::next_block_height
 pub enum Error { TxLockHeight, Store }
 pub struct BlockHeader { pub height: u64 }
+pub struct Tip { pub height: u64 }
 #[verifier::external_body]
 pub struct Transaction { _p: u8 }
 impl Transaction {
@@ -15,6 +16,12 @@ impl Transaction {
 pub struct Chain { _p: u8 }
 impl Chain {
     pub uninterp spec fn sp_head_height(&self) -> u64;
+    /// the other tips the real Chain offers: the header chain's head and the body head as a Tip -- heights of their own
+    pub uninterp spec fn sp_header_head_height(&self) -> u64;
+    #[verifier::external_body]
+    pub fn header_head(&self) -> (r: Result<Tip, Error>) ensures r matches Ok(t) ==> t.height == self.sp_header_head_height() { unimplemented!() }
+    #[verifier::external_body]
+    pub fn head(&self) -> (r: Result<Tip, Error>) ensures r matches Ok(t) ==> t.height == self.sp_head_height() { unimplemented!() }
     #[verifier::external_body]
     pub fn head_header(&self) -> (r: Result<BlockHeader, Error>) ensures r matches Ok(h) ==> h.height == self.sp_head_height() { unimplemented!() }
 //@ extract chain/src/chain.rs :: impl Chain::next_block_height
